@@ -50,6 +50,10 @@ def _rand_world(rnd, n, setup_p=0.0, debug_p=0.0, fail_p=0.0, tags=False, maxc=2
             nd["setup"] = True
             if rnd.random() < 0.3:
                 nd["value"] = None  # a side-effect-only setup node
+    # ordinary nodes may return falsy values (0, False, "", (), None): a value is a value, whatever its truthiness
+    for nd in nodes:
+        if "value" not in nd and rnd.random() < 0.12:
+            nd["value"] = rnd.choice([0, False, "", (), None])
     # (the None of a side-effect-only node has no parts: it is only used whole)
     whole = {nd["id"] for nd in nodes if "value" in nd}
     for nd in nodes:
